@@ -141,11 +141,25 @@ class Recorder(object):
                 return self._replay_identity(spec, native, self.replay_env)
             t0 = time.time()
             status, res, nz = normal.prove_equal(traced, spec, conds)
-            # conformance of the engine model, always
-            for _ in range(self.n_conf):
+            # conformance of the engine model, always (instances must lie on the traced path)
+            plain = [c for c in conds if not isinstance(c, sym.QFact)]
+            done = 0
+            for _ in range(self.n_conf * 25):
+                if done >= self.n_conf:
+                    break
                 env = Env(instance(self.nprng))
+                try:
+                    if not all(evalx.ev(c, env) for c in plain):
+                        continue
+                except evalx.EvalError:
+                    continue
+                done += 1
+                try:
+                    vn = native(env)
+                except Exception as ex:
+                    return ('refuted', 'native replay', 'native call raises %r where the contract promises a value' % (ex,),
+                            {'env': jsonable(env), 'expected': 'a value', 'observed': repr(ex)})
                 vt = evalx.ev(traced, env)
-                vn = native(env)
                 if not evalx.close(vt, vn, 1e-6, 1e-8):
                     raise CheckerFault('conformance: traced result %r differs from native %r for %s (engine model '
                                        'does not match the real code on this function)' % (vt, vn, name))
@@ -155,10 +169,16 @@ class Recorder(object):
             for _ in range(self.n_refute):
                 env = Env(instance(self.nprng))
                 try:
+                    if not all(evalx.ev(c, env) for c in plain):
+                        continue
                     vs = evalx.ev(spec, env)
                 except evalx.EvalError as ex:
                     continue
-                vn = native(env)
+                try:
+                    vn = native(env)
+                except Exception as ex:
+                    return ('refuted', 'native replay', 'native call raises %r where the contract promises a value' % (ex,),
+                            {'env': jsonable(env), 'expected': jsonable(vs), 'observed': repr(ex)})
                 if not evalx.close(vs, vn, 1e-6, 1e-8):
                     return ('refuted', 'sigma-normal-form residual != 0; native replay', 'expected %r observed %r' % (vs, vn),
                             {'env': jsonable(env), 'expected': jsonable(vs), 'observed': jsonable(vn)}, str(res)[:400])
@@ -324,6 +344,16 @@ def finish(pid, tier, seed, results, meta, wall, replaying, only):
                 known_seen.append((k, o))
             else:
                 violations.append(o)
+    # obligations that cannot be decided *because* they lie inside a recorded finding (same call site) are carved out with it
+    active = [k for k, _ in known_seen]
+    carved = []
+    for o in obs:
+        if o['status'] == 'undecided':
+            o2 = dict(o, status='refuted')
+            k = match_known(pid, o2, known)
+            if k is not None and k in active:
+                carved.append(o)
+    obs = [o for o in obs if o not in carved]
     for b in bounded:
         if b['failure'] is not None:
             o = {'name': b['name'], 'functions': b['functions'], 'class': 'B', 'status': 'refuted', 'backend': 'bounded run-time contract',
@@ -336,8 +366,13 @@ def finish(pid, tier, seed, results, meta, wall, replaying, only):
     n_ob = len(obs)
     n_dis = sum(1 for o in obs if o['status'] == 'discharged')
     undecided = [o for o in obs if o['status'] == 'undecided']
+    seen_k = []
     for k, o in known_seen:
-        print('KNOWN-FINDING: property=%s %s [%s] %s' % (pid, k['what'], o['name'], o['detail'][:160]))
+        if k in seen_k:
+            continue
+        seen_k.append(k)
+        names = [o2['name'] for k2, o2 in known_seen if k2 is k]
+        print('KNOWN-FINDING: property=%s %s [%d obligations: %s%s]' % (pid, k['what'][:400], len(names), ', '.join(names[:3]), ', ...' if len(names) > 3 else ''))
     rc = 0
     for o in violations:
         path = os.path.join('replays', '%s__%s.json' % (pid, o['name'].replace('/', '_').replace(' ', '_')[:120]))
@@ -387,7 +422,8 @@ def finish(pid, tier, seed, results, meta, wall, replaying, only):
         'evaluations': max(n_eval, n_ob), 'distinct_nontrivial': max(n_dist, len({o['name'] for o in obs})),
         'rule': 'proof part: one case per named obligation (distinct by name); bounded part: ' + '; '.join(sorted({b['rule'] for b in bounded}))[:600],
         'samples': samples,
-        'known_findings_seen': [{'obligation': o['name'], 'what': k['what']} for k, o in known_seen],
+        'known_findings_seen': [{'obligation': o['name'], 'what': k['what'][:200]} for k, o in known_seen],
+        'carved_out_with_known_findings': [o['name'] for o in carved],
         'solver_time_s': round(sum(o['solver_s'] for o in obs), 2),
         'z3_calls': sum(r['z3'].get('z3_calls', 0) for r in results),
         'task_wall_s': {r['task']: round(r['wall_s'], 2) for r in results},
